@@ -5,6 +5,7 @@ cd /verif
 for d in seeded/*/; do
   n=$(basename $d); id=${n%%-*}
   if grep -q '"neutralised_by"' /verif/$d/meta.json; then echo "RETIRED $n (neutralised by a later fix)"; continue; fi
+  if grep -q '"uncaught"' /verif/$d/meta.json; then echo "UNCAUGHT-KNOWN $n (documented in DESIGN.md section 12)"; continue; fi
   ids=$(python3 -c "import json;print(' '.join(json.load(open('/verif/$d/meta.json')).get('caught_by',['$id'])))")
   out=$(./seedtest.sh /verif/$d/patch.diff $ids 2>&1)
   if echo "$out" | grep -q "VIOLATION"; then echo "CAUGHT $n: $(echo "$out" | grep -E '^--- .*VIOLATION' | sed 's/ (.*//' | tr '\n' ' ') $(echo "$out" | grep -o 'class=[^ ]*' | head -1)"; else echo "MISSED $n: $(echo "$out" | tail -1)"; fi
